@@ -77,7 +77,7 @@ func c10(args []string) {
 	for g := 0; g < n; g++ {
 		b := []int{1, 2, 3, 128}[rng.Intn(4)]
 		mt := []int{1, 2, 4, 8}[rng.Intn(4)]
-		o := gen.GraphOpts{MaxProcs: 7, Lens: []int{1, 2, 3, b + 1}, Buf: b, FanIn: true, Params: true, GoFunc: true, MultiOut: true, Portless: true, SubDirs: true,
+		o := gen.GraphOpts{MaxProcs: 7, Lens: []int{1, 2, 3, b + 1}, Buf: b, FanIn: true, Params: true, GoFunc: true, WriteAPI: true, MultiOut: true, Portless: true, SubDirs: true,
 			ParamComb: true, Prepend: true, Cores: mt, MaxTasks: mt, SleepMax: 10, MapTags: true, Join: true, NoUnequal: true}
 		s := gen.Graph(rng, fmt.Sprintf("g%d", g), o)
 		exp := evalRef(s, nil)
